@@ -108,7 +108,11 @@ class FEM(om.ImplicitComponent):
         # Find constrained nodes based on closeness to specified cg point
         symmetry = self.options["surface"]["symmetry"]
         if symmetry:
-            idx = self.ny - 1
+            # The clamped node is the one on the symmetry plane: the last node of a left-half
+            # mesh, the first node of a right-half mesh (same detection as in the VLM components).
+            mesh = self.options["surface"]["mesh"]
+            right_wing = abs(mesh[0, 0, 1]) < abs(mesh[0, -1, 1])
+            idx = 0 if right_wing else self.ny - 1
         else:
             idx = (self.ny - 1) // 2
 
